@@ -177,7 +177,20 @@ def handler_history(rng):
             handlers += [{"k": "label", "name": "H%d" % i}, pr("handler %d" % i), {"k": "resume", "mode": "next"}]
         main.append(pr("after round %d" % i))
     main.append({"k": "onerror", "mode": "zero"})
-    final = rng.choice(["main", "call", "call"])
+    final = rng.choice(["main", "call", "call", "recursion"])
+    if final == "recursion":
+        # direct recursion: the same call statement is active several times
+        n = rng.choice([1, 2, 3, 5])
+        rfault = div("ZQ%")
+        rcall = {"k": "callsub", "name": "Rec", "args": [("bin", "-", ("var", "K%"), ("lit", "%", 1))]}
+        procs.append({"k": "sub", "name": "Rec", "params": [("K%", "%")], "static": False, "rtype": None,
+                      "body": [pr("in Rec"), {"k": "if", "arms": [(("bin", ">", ("var", "K%"), ("lit", "%", 0)), [rcall])], "else": [rfault]}, pr("back in Rec")]})
+        c0 = {"k": "callsub", "name": "Rec", "args": [("lit", "%", n)]}
+        main.append(c0)
+        main.append({"k": "end"})
+        main += handlers
+        prog = {"main": main, "procs": procs, "shared": set()}
+        return prog, [rfault] + [rcall] * n + [c0], {"rounds": rounds, "depth": n + 1, "final": final, "static": sum(1 for q in procs if q["static"])}
     if final == "main":
         f = div("ZQ%")
         main.append(f)
